@@ -44,7 +44,9 @@ pub fn tuple_struct(tpl: &TupleStruct, env: Option<&Environment>, p: &Interprete
   if let Some((enum_id, enum_def)) = state_brrw
     .enums
     .iter()
-    .find(|(_, enm)| enm.variants.iter().any(|(known_variant, _)| *known_variant == variant_id))
+    .filter(|(_, enm)| enm.variants.iter().any(|(known_variant, _)| *known_variant == variant_id))
+    // several enums may declare the variant: the choice must not depend on the map's iteration order
+    .min_by_key(|(enum_id, _)| **enum_id)
   {
     let variants = vec![(variant_id, Some(payload))];
     let enm = MechEnum {
